@@ -135,6 +135,21 @@ class SrcInfo:
                 ty = hdr
             self.impls[(rel, ln)] = (type_base(ty), trait_key(tr) if tr else None)
 
+    def derive_impl(self, rel, line, c0, c1):
+        """`<impl at file:L:C0: L:C1>` pointing into a #[derive(...)] list -> (type, trait)"""
+        ls = self.lines.get(rel)
+        if not ls or line > len(ls):
+            return None
+        text = ls[line - 1]
+        if 'derive' not in text:
+            return None
+        tr = text[c0 - 1:c1 - 1].strip()
+        for k in range(line, min(line + 12, len(ls))):
+            m = re.match(r'\s*(?:pub(?:\([^)]*\))?\s+)?(?:struct|enum)\s+(\w+)', ls[k])
+            if m:
+                return (m.group(1), tr)
+        return None
+
     def field_index(self, struct, field):
         return self.structs[struct].index(field)
 
